@@ -433,4 +433,215 @@ theorem sound_map {k v : Target} (hK : Sound k) (hV : Sound v) : Sound (.map k v
       rw [hr]
   | _ => cases lv <;> simp [cast, mustFail, must, na, fail] at hc
 
+/-! ### enums: from a dense union (by name / by index) and from a string column (unit variants by name) -/
+
+def KSound (k : VKind) : Prop :=
+  ∀ (child : Arr) (off : Nat) (lv : LVal) (d : DVal), decodeAt child off = .ok lv → new Fixes.all child = .ok () →
+    physical child = true → utf8Ok lv = true → castKind k child lv = must d →
+    readKind Fixes.all k (some (child, off)) = .ok d
+
+theorem ksound_unit : KSound .unit := by
+  intro child off lv d h hn hp hu hc
+  cases child with
+  | null len =>
+    obtain ⟨rfl, hg⟩ := null_get h
+    simp only [castKind, isNullArr, Bool.true_and] at hc
+    split at hc
+    · cases must_inj hc
+      simp only [readKind]
+      unfold scalar
+      simp [hg, accept, bind, Except.bind, pure, Except.pure]
+    · simp [na, must] at hc
+  | _ => simp [castKind, isNullArr, na, must] at hc
+
+theorem ksound_newtype {t : Target} (hS : Sound t) : KSound (.newtype t) := by
+  intro child off lv d h hn hp hu hc
+  simp only [castKind] at hc
+  simp only [readKind]
+  exact hS child off lv d h hn hp hu hc
+
+theorem ksound_tuple {ts : Targets} (hS : ∀ t ∈ Targets.toList ts, Sound t) : KSound (.tuple ts) := by
+  intro child off lv d h hn hp hu hc
+  simp only [castKind] at hc
+  simp only [readKind]
+  exact tupleVisit_sound hS child off lv d h hn hp hu hc
+
+theorem variant_facts : ∀ (fs : ArrUFields) (k pos j : Nat) (w : LVal),
+    decodeVariantAt fs pos j = .ok w → newUFields Fixes.all fs k = .ok () → physicalUFields fs = true →
+    ∃ fm child, ArrUFields.nth fs pos = some (fm, child) ∧ decodeAt child j = .ok w ∧ new Fixes.all child = .ok () ∧
+      physical child = true
+  | .nil, _, _, _, _, h, _, _ => by unfold decodeVariantAt at h; cases h
+  | .cons tid fm a rest, k, 0, j, w, h, hn, hp => by
+    unfold decodeVariantAt at h
+    unfold newUFields at hn
+    split at hn
+    · cases hn
+    · obtain ⟨_, _, hn⟩ := bind_ok_inv hn
+      obtain ⟨u, hna, hn⟩ := bind_ok_inv hn
+      cases u
+      unfold physicalUFields at hp
+      simp only [Bool.and_eq_true] at hp
+      exact ⟨fm, a, by simp [ArrUFields.nth], h, hna, hp.1⟩
+  | .cons tid fm a rest, k, pos + 1, j, w, h, hn, hp => by
+    unfold decodeVariantAt at h
+    unfold newUFields at hn
+    split at hn
+    · cases hn
+    · obtain ⟨_, _, hn⟩ := bind_ok_inv hn
+      obtain ⟨_, _, hn⟩ := bind_ok_inv hn
+      unfold physicalUFields at hp
+      simp only [Bool.and_eq_true] at hp
+      obtain ⟨fm', child, hnth, hr⟩ := variant_facts rest (k + 1) pos j w h hn hp.2
+      exact ⟨fm', child, by simp [ArrUFields.nth, hnth], hr⟩
+
+/-- what a defined slot of a dense union is, and how the reader selects it -/
+theorem union_facts {types : List Int} {offs : Option (List Int)} {fs : ArrUFields} {i : Nat} {lv : LVal}
+    (h : decodeAt (.union types offs fs) i = .ok lv) (hn : new Fixes.all (.union types offs fs) = .ok ())
+    (hp : physical (.union types offs fs) = true) :
+    ∃ (pos off : Nat) (fm : FieldMeta) (child : Arr) (w : LVal), lv = .union (pos : Int) w ∧
+      unionSelect Fixes.all types offs fs.length i = .ok (pos, off) ∧ ArrUFields.nth fs pos = some (fm, child) ∧
+      ArrUFields.findId fs (pos : Int) = some (fm, child) ∧ decodeAt child off = .ok w ∧
+      new Fixes.all child = .ok () ∧ physical child = true := by
+  unfold new at hn
+  split at hn
+  · cases hn
+  · rename_i o
+    split at hn
+    · cases hn
+    · rename_i hlen
+      have hlen' : types.length = o.length := by
+        by_cases hh : types.length = o.length
+        · exact hh
+        · exact absurd hh (by simpa using hlen)
+      unfold decodeAt at h
+      split at h
+      · rename_i hi
+        try simp only at h
+        split at h
+        · cases h
+        · rename_i pos hpos
+          try simp only at h
+          split at h
+          · rename_i hc
+            obtain ⟨w, hw, h⟩ := bind_ok_inv h
+            cases h
+            unfold indexOfTypeId at hpos
+            obtain ⟨_, hget⟩ := go_spec _ _ _ _ hpos
+            simp only [Nat.sub_zero] at hget
+            obtain ⟨ht, hposlt⟩ := ids_consecutive fs 0 hn pos _ hget
+            simp only [Nat.zero_add] at ht
+            unfold physical at hp
+            obtain ⟨fm, child, hnth, hdec, hnc, hpc⟩ := variant_facts fs 0 pos _ w hw hn hp
+            have hfind := findId_consecutive fs 0 pos fm child hn hnth
+            simp only [Nat.zero_add] at hfind
+            have hio : i < o.length := hc.1
+            have hsel : unionSelect Fixes.all types (some o) fs.length i = .ok (pos, (o.getD i (-1)).toNat) := by
+              unfold unionSelect
+              have h1 : ¬ i ≥ types.length := by omega
+              have h2 : ¬ types.length ≠ o.length := by omega
+              rw [getD_of_lt _ _ _ hi] at ht
+              have h3 : 0 ≤ types[i] ∧ types[i].toNat < fs.length := by rw [ht]; constructor <;> omega
+              have h4 : types[i].toNat = pos := by rw [ht]; simp
+              have hoff : 0 ≤ o[i] := by
+                have := hc.2
+                rwa [getD_of_lt _ _ _ hio] at this
+              simp only [h1, if_false, h2, List.getElem?_eq_getElem hi, List.getElem?_eq_getElem hio,
+                getD_of_lt _ _ _ hio, bind, Except.bind, tryIntoUsize_nonneg hoff, h3, and_self, if_true, h4,
+                hposlt, pure, Except.pure]
+            exact ⟨pos, _, fm, child, w, by rw [ht], hsel, hnth, hfind, hdec, hnc, hpc⟩
+          · cases h
+      · cases h
+
+theorem readVariantAs_sound : ∀ (vs : TVariants), (∀ p ∈ TVariants.toList vs, KSound p.2) →
+    ∀ (sel : Option Nat) (name : String) (child : Arr) (off : Nat) (w : LVal) (d : DVal),
+    decodeAt child off = .ok w → new Fixes.all child = .ok () → physical child = true → utf8Ok w = true →
+    castVariant vs sel name child w = must d → readVariantAs Fixes.all vs sel name (some (child, off)) = .ok d
+  | .nil, _, sel, name, child, off, w, d, _, _, _, _, hc => by
+    simp [castVariant, mustFail, must, fail] at hc
+  | .cons n k rest, hV, sel, name, child, off, w, d, h, hn, hp, hu, hc => by
+    simp only [castVariant] at hc
+    simp only [readVariantAs]
+    have key : ∀ (c : Bool),
+        (if c = true then (castKind k child w).andThen fun p => must (.enum (.str .transient (strBytes n)) p)
+          else castVariant rest (sel.map (· - 1)) name child w) = must d →
+        (if c = true then (do pure (DVal.enum (.str .transient (strBytes n)) (← readKind Fixes.all k (some (child, off)))))
+          else readVariantAs Fixes.all rest (sel.map (· - 1)) name (some (child, off))) = .ok d := by
+      intro c hc
+      cases c
+      · simp only [Bool.false_eq_true, if_false] at hc ⊢
+        exact readVariantAs_sound rest (fun p hp' => hV p (by simp [TVariants.toList, hp'])) _ name child off w d h hn hp hu hc
+      · simp only [if_true] at hc ⊢
+        obtain ⟨p, hk, hd⟩ := andThen_must hc
+        cases must_inj hd
+        have := hV (n, k) (by simp [TVariants.toList]) child off w p h hn hp hu hk
+        simp only [this, bind, Except.bind, pure, Except.pure]
+    cases sel with
+    | none => exact key (n == name) hc
+    | some j => exact key (j == 0) hc
+
+theorem readVariantAsBytes_sound : ∀ (vs : TVariants) (b : Bytes) (d : DVal),
+    castVariantStr vs b = must d → readVariantAsBytes Fixes.all vs b = .ok d
+  | .nil, b, d, hc => by simp [castVariantStr, mustFail, must, fail] at hc
+  | .cons n k rest, b, d, hc => by
+    simp only [castVariantStr] at hc
+    simp only [readVariantAsBytes]
+    split at hc
+    · rename_i hs
+      simp only [hs, if_true]
+      cases k <;> simp [mustFail, must, fail] at hc
+      subst hc
+      simp [readKind, bind, Except.bind, pure, Except.pure]
+    · rename_i hs
+      simp only [hs, if_false]
+      exact readVariantAsBytes_sound rest b d hc
+
+theorem sound_enum {byIndex : Bool} {vs : TVariants} (hV : ∀ p ∈ TVariants.toList vs, KSound p.2) :
+    Sound (.enum byIndex vs) := by
+  intro a i lv d h hn hp hu hc
+  cases a with
+  | union types offs fs =>
+    obtain ⟨pos, off, fm, child, w, rfl, hsel, hnth, hfind, hdec, hnc, hpc⟩ := union_facts h hn hp
+    simp only [cast, hfind] at hc
+    simp only [utf8Ok] at hu
+    simp only [readAs, hsel, bind, Except.bind, hnth]
+    cases byIndex
+    · simp only [Bool.false_eq_true, if_false] at hc ⊢
+      exact readVariantAs_sound vs hV none fm.name child off w d hdec hnc hpc hu hc
+    · simp only [if_true, Int.toNat_natCast] at hc ⊢
+      exact readVariantAs_sound vs hV (some pos) fm.name child off w d hdec hnc hpc hu hc
+  | bytes ty v offs data =>
+    rcases bytes_get h hu with ⟨rfl, hg⟩ | ⟨b, rfl, hg⟩
+    · simp [cast, mustFail, must, fail] at hc
+    · cases hty : isUtf8Ty ty
+      · simp [cast, bytesVal, hty, na, must] at hc
+      · simp only [cast, bytesVal, hty, if_true, isStringLike, Bool.true_and] at hc
+        cases byIndex
+        · simp only [Bool.not_false, if_true] at hc
+          simp only [readAs, stringElem, hty, if_true, hg, getRequired, bind, Except.bind, pure, Except.pure,
+            Bool.false_eq_true, if_false]
+          exact readVariantAsBytes_sound vs b d hc
+        · simp [na, must] at hc
+  | bytesView ty v views buffers =>
+    rcases view_get h hu with ⟨rfl, hg⟩ | ⟨b, rfl, hg⟩
+    · simp [cast, mustFail, must, fail] at hc
+    · cases hty : isUtf8View ty
+      · simp [cast, bytesVal, hty, na, must] at hc
+      · simp only [cast, bytesVal, hty, if_true, isStringLike, Bool.true_and] at hc
+        cases byIndex
+        · simp only [Bool.not_false, if_true] at hc
+          simp only [readAs, stringElem, hty, if_true, hg, getRequired, bind, Except.bind, pure, Except.pure,
+            Bool.false_eq_true, if_false]
+          exact readVariantAsBytes_sound vs b d hc
+        · simp [na, must] at hc
+  | dictionary ks vs' =>
+    rcases dict_get h hn hp hu with ⟨rfl, _⟩ | ⟨b, rfl, _, hg⟩
+    · simp [cast, mustFail, must, fail] at hc
+    · simp only [cast, isStringLike, Bool.true_and] at hc
+      cases byIndex
+      · simp only [Bool.not_false, if_true] at hc
+        simp only [readAs, stringElem, hg, bind, Except.bind, Bool.false_eq_true, if_false]
+        exact readVariantAsBytes_sound vs b d hc
+      · simp [na, must] at hc
+  | _ => cases lv <;> simp [cast, isStringLike, mustFail, must, na, fail] at hc
+
 end SaModel.Read
